@@ -247,7 +247,7 @@ def main() -> None:
     elif cmd == "report":
         print("| id | property | what it needs in order to manifest | detected by (quick tier) | first violated clause |")
         print("|---|---|---|---|---|")
-        hit = total = 0
+        hit = total = any_hit = 0
         for seed_id in sorted(os.listdir(SEEDED)):
             meta_path = os.path.join(SEEDED, seed_id, "meta.json")
             if not os.path.exists(meta_path):
@@ -258,9 +258,10 @@ def main() -> None:
             total += 1
             hit += 1 if own.get("detected") else 0
             others = [c for c, r in det.items() if r.get("detected") and c != meta["property"]]
+            any_hit += 1 if (own.get("detected") or others) else 0
             cell = (meta["property"] if own.get("detected") else "**not by " + meta["property"] + "**") + (" (also " + ", ".join(others) + ")" if others else "")
             print(f"| {seed_id} | {meta['property']} | {meta['needs_to_manifest']} | {cell} | {own.get('first_clause') or ''} |")
-        print(f"\n{hit} of {total} seeded regressions are detected by the quick tier of the check of the property they were written against.")
+        print(f"\n{hit} of {total} seeded regressions are detected by the quick tier of the check of the property they were written against; {any_hit} of {total} by the quick tier of at least one check.")
     else:
         print(__doc__)
 
